@@ -547,6 +547,50 @@ def run_scaled(case):
     return {'nt': code != 0, 'labels': [name, 'scale=%s' % scale]}
 
 
+# ------------------------------------------------------------------------------------------- encoders in a history
+
+@st.composite
+def hist_case(draw, tier):
+    """a few values encoded again and again in the 8-bit-and-smaller formats through every route; mutable results are edited in place in between"""
+    vals = draw(st.lists(st.sampled_from([0.0, 1.0, -1.0, 0.5, 1.5, 2.0, 3.0, 6.0, 1e9, -1e9, 100.0, 448.0, 0.25, -0.0, 1.984375, 64.0]), min_size=1, max_size=3))
+    steps = []
+    for _ in range(draw(st.integers(2, 10))):
+        steps.append([draw(st.sampled_from(sorted(FORMATS) + ['mxint'])), draw(st.sampled_from(vals)).hex(), draw(st.sampled_from(ROUTES + ['setattr', 'setattr'])),
+                      draw(st.sampled_from(['invert', 'append', 'clear', 'set1', 'none', 'reverse']))])
+    return {'steps': steps, 'mode': draw(st.sampled_from(MODES))}
+
+
+def run_hist(case):
+    bs = bitstring_module()
+    bs.options.mxfp_overflow = case['mode']
+    edited = False
+    keep = []
+    for name, xh, route, edit in case['steps']:
+        x = float.fromhex(xh)
+        exp = mxint_encode(x) if name == 'mxint' else FORMATS[name].encode(x, case['mode'])
+        nb = 8 if name == 'mxint' else FORMATS[name].bits
+        got = attempt(build_code, bs, name, x, route, 'BitArray')
+        if exp == 'ValueError':
+            require(is_raised(got, ValueError), 'a value without a code must be rejected', fmt=name, x=x, got=got)
+            continue
+        require(not is_raised(got) and len(got) == nb and got.uint == exp, ('the code of a value changed after an earlier result was edited in place' if edited else 'wrong code'),
+                fmt=name, x=x, route=route, got=got if is_raised(got) else got.bin, expected=format(exp, f'0{nb}b'), steps=case['steps'][:10])
+        if isinstance(got, bs.BitArray) and edit != 'none':
+            if edit == 'invert':
+                got.invert()
+            elif edit == 'append':
+                got.append('0b1')
+            elif edit == 'clear':
+                got.clear()
+            elif edit == 'set1':
+                got.set(1)
+            elif edit == 'reverse':
+                got.reverse()
+            edited = True
+        keep.append(got)
+    return {'nt': edited and len(case['steps']) >= 3, 'labels': sorted({s[2] for s in case['steps']})}
+
+
 # ------------------------------------------------------------------------------------------- scale='auto'
 
 AUTO_MAX = {'mxint': 1.984375, 'e2m1mxfp': 6.0, 'e2m3mxfp': 7.5, 'e3m2mxfp': 28.0, 'e4m3mxfp': 448.0, 'e5m2mxfp': 57344.0, 'p4binary': 224.0, 'p3binary': 49152.0, 'float16': 65504.0}
@@ -630,6 +674,7 @@ SUBCHECKS = [
     Sub('C11.mxint_e8m0_grid', run_other, enum=enum_other,
         enum_exhaustive_note='mxint: every multiple of 1/256 in [-2.25, 2.25] and its two float neighbours (all rounding ties, quarter points and both saturation edges); '
                              'e8m0: every power of two 2**-135..2**135, its two float neighbours, 1.5x and its negative; zeros, infinities and extremes through every route'),
+    Sub('C11.encode_in_history', run_hist, strategy=hist_case, examples={'quick': 4000, 'thorough': 50000}, ambient=('bytealigned',)),
     Sub('C11.scaled', run_scaled, strategy=scaled_case, examples={'quick': 6000, 'thorough': 80000}, ambient=('bytealigned',)),
     Sub('C11.auto_scale', run_auto, strategy=auto_case, examples={'quick': 4000, 'thorough': 50000}, ambient=('bytealigned',)),
 ]
